@@ -128,6 +128,9 @@ theorem step_sound (hrec : RecClean rec) (env : Env) (len pc : Nat) (i : Instr) 
     · rename_i es s1 h1
       have := popEntries_ok h1
       simp [StepGood, pushV]; omega
+    · rename_i s1 h1
+      have := popEntries_ok h1
+      simp [StepGood, pushV]; omega
   case fmt n =>
     split
     · rename_i h1; exact popN_fail hrec hp h1
@@ -135,7 +138,7 @@ theorem step_sound (hrec : RecClean rec) (env : Env) (len pc : Nat) (i : Instr) 
       have := (popN_ok h1).1
       split
       · simp [StepGood, pushV]; omega
-      · simp [StepGood, Abort.structural]
+      · simp [StepGood, pushV]; omega
   case access =>
     split
     · rename_i h1
@@ -197,11 +200,11 @@ theorem step_sound (hrec : RecClean rec) (env : Env) (len pc : Nat) (i : Instr) 
             · exact inv _ _ _ _ (by omega)
             · split
               · split
-                · rename_i he; exact resolveArgs_clean hrec env _ _ _ _ he
+                · simp [StepGood, pushV]; omega
                 · simp [StepGood, pushV]; omega
               · simp [StepGood, pushV]; omega
         · split
-          · rename_i he; exact resolveArgs_clean hrec env _ _ _ _ he
+          · simp [StepGood, pushV]; omega
           · simp [StepGood, pushV]; omega
         · simp [StepGood, pushV]; omega
 
